@@ -24,6 +24,10 @@ def t_generic(chk, ix):
     # retry / patch helpers must not hand out late-bound closures (a patched scenario running another one's run())
     from .. import rules_generic
     rules_generic.check_late_binding(chk, ix)
+    rules_generic.check_finally_jumps(chk, ix)
+    # a cleanup that is silently not registered cannot fail the run
+    from .. import rules_context
+    rules_context.check_add_cleanup(chk, ix)
 
 
 def run(chk, ix, tier):
@@ -37,5 +41,5 @@ def run(chk, ix, tier):
         (T.t_abort_wiring, ()),
         (t_generic, ()),
     ])
-    for r, n in (("V1", 8), ("V2", 1), ("V3", 3), ("V4", 1), ("V5", 2), ("V6", 10), ("V7", 5), ("S1", 8), ("RF5", 10)):
+    for r, n in (("V1", 8), ("V2", 1), ("V3", 3), ("V4", 1), ("V5", 2), ("V6", 10), ("V7", 5), ("S1", 8), ("RF5", 10), ("RF7", 8)):
         chk.require_instances(r, n)
